@@ -33,6 +33,8 @@ class Net:
         self.out = []            # implementation output, one list of lines per operation
         self.links = []          # Link objects in creation order
         self.names = {}          # node index -> name
+        self.parked = []         # (node, coroutine id, site): commands waiting inside start_election
+        self.ticks = 0           # wait-loop turns taken
         self.delivered = 0       # inter-node messages delivered (both directions)
         self.trace = []          # (kind, a, b, line) of every delivery
 
@@ -85,6 +87,14 @@ class Net:
     def op(self, i, line):
         res = self.raw(f"@{i} {line}")
         for l in res:
+            m = re.match(r"Y parked (\d+) (\S+)", l)
+            if m:
+                self.parked = [p for p in self.parked if not (p[0] == i and p[1] == int(m.group(1)))] + [(i, int(m.group(1)), m.group(2))]
+                continue
+            m = re.match(r"Y done (\d+)", l)
+            if m:
+                self.parked = [p for p in self.parked if not (p[0] == i and p[1] == int(m.group(1)))]
+                continue
             m = re.match(r"K link (\S+) primary=(\d) lastop=(\d+)", l)
             if m:
                 to = self.node_of(core.unesc(m.group(1)).decode())
@@ -154,6 +164,20 @@ class Net:
             kind, k = ps[rng.below(len(ps))] if rng is not None else ps[0]
             self.deliver(kind, k); n += 1
 
+    def settle(self, rng=None, budget=600, max_ticks=200):
+        """messages are faster than the election timeout: deliver everything that can be delivered; only when nothing can,
+        let one parked election take one turn of its wait loop; until nothing is in flight and nothing is parked.
+        Returns False when the budget is exhausted."""
+        steps = 0
+        while True:
+            n = self.quiesce(rng, budget)
+            if n is None: return False
+            if not self.parked: return True
+            if self.ticks >= max_ticks or steps >= budget: return False
+            node, cid, _ = self.parked[rng.below(len(self.parked))] if rng is not None else self.parked[0]
+            self.op(node, f"RESUME {cid}"); self.op(node, "PUMP")
+            self.ticks += 1; steps += 1
+
     def disconnect(self, a, b):
         """the connections between a and b die: both ends see end-of-stream"""
         for lk in self.links:
@@ -169,14 +193,20 @@ class Net:
         self.op(via, f"C 90 join {self.names[new]}")
         self.op(via, "CLOSE 90"); self.op(via, "PUMP")
 
-def form_cluster(net, k, rng=None):
-    """k nodes, n1 the oldest: n1 elects itself, the others join through it; returns after quiescence"""
-    net.reset(1, "startingup", "n1", 100)
+def form_cluster(net, k, rng=None, co=False, pids=None):
+    """k nodes, n1 the oldest: n1 elects itself, the others join through it; returns after quiescence.
+    co=True: elections run as coroutines (messages faster than the election timeout)"""
+    extra = "pump,sup,co" if co else "pump,sup"
+    pids = pids or [100 * i for i in range(1, k + 1)]
+    net.reset(1, "startingup", "n1", pids[0], extra)
     net.op(1, "ELECT"); net.op(1, "PUMP")
+    if co and not net.settle(rng): return False
     for i in range(2, k + 1):
-        net.reset(i, "startingup", f"n{i}", 100 * i)
+        net.reset(i, "startingup", f"n{i}", pids[i - 1], extra)
         net.join(i, 1)
-        if net.quiesce(rng, 300) is None: return False
+        if co:
+            if not net.settle(rng): return False
+        elif net.quiesce(rng, 300) is None: return False
     return True
 
 def compare(net):
